@@ -428,14 +428,11 @@ def c16_spec_matches(model, spec):
 
 
 def c16_known(case, impl, model, spec):
-    # the model (faithful to the code) and the property disagree: only on the two classes
-    # of the extracted predicate known_class, told apart by what fails
+    # the model (faithful to the code) and the property disagree: only on the class of the
+    # extracted predicate known_class (a map / struct whose first key is the private number token)
     if _c16_fields(spec).get("K") != "1" or impl != model:
         return None
-    if "F32:15ae43fd" in case or "F32:95ae43fd" in case:
-        return "C16-f32-double-rounding"
-    return "C16-number-token-first-key" if " ser E" in model or " | ser I" in model or " | ser F" in model \
-        else "C16-empty-tuple-variant"
+    return "C16-number-token-first-key"
 
 
 def c16_differs(case, impl, model, spec):
@@ -473,20 +470,24 @@ PROPS["C16"] = {
         "MODELLED CONTRACT (Model/Serde.v, comment above [de]): which deserialize_* method each std / serde-derive generated "
         "Deserialize impl calls and which visit_* it accepts (integers: visit_u64/visit_i64 with range checks; floats accept "
         "integers; char: one-char string; Option: deserialize_option; derived struct: map or seq, unknown keys skipped, repeated "
-        "field an error, absent Option field None; derived enum: string or single-entry map; zero-field tuple variant visitor "
-        "rejects visit_unit); validated by this run on every root type, not verified",
+        "field an error, absent Option field None; derived enum: string or single-entry map; tuple variant visitors accept "
+        "visit_seq only; f32 accepts visit_f32); validated by this run on every root type, not verified",
         "serde_json::to_value's shape (ser_sj: BTreeMap objects ordered by key, i64/u64 as NegInt/PosInt, f32 widened to f64, "
         "non-finite floats null, key kinds) and Value::from_serde_json are modelled from serde_json's source/documentation; validated by this run",
-        "float formatting and parsing (lexical write, lexical lossy parse, serde_json's float Display) are section variables; the "
-        "theorems assume that the spelling of a finite float read back along the deserializer's number path returns it (-0.0 "
-        "as +0.0); executable reference instances (correctly rounded nearest_double; 17-digit spelling for f64, shortest for f32 "
-        "with lexical's layout and tie rule) are validated by this run and checked on a sample inside Coq",
+        "float PRINTING (lexical write for f64/f32, serde_json's float Display) is a section variable; the theorems assume that "
+        "the printed spelling of a finite float, read back correctly rounded (-0.0 as +0.0 on the direct path), is that float; "
+        "the run validates the premises on every spelling the dependencies actually printed (recorded on the case line, hyp=1); "
+        "executable reference instances (17-digit spelling for f64, shortest for f32 with lexical's layout and tie rule) are "
+        "checked on a sample inside Coq",
+        "READING a spelling is no longer a dependency: std's str::parse::<f64> / ::<f32> are taken to be correctly rounded "
+        "(dbl = nearest_double of the exact decimal, proved correct in Proofs/NearestDouble.v; sgl = the same construction at "
+        "prec 24 / emax 128, validated by this run incl. the midpoint spelling 7.038531e-26)",
         "the recording serializer and the type-descriptor macros of harness/src/serde_typed.rs",
         "Flocq 4.1.0 binary_round / SpecFloat (executable definitions only; the C16 theorems use no axiom)",
     ],
     "assumptions": [
         "domain: has_type (map keys pairwise distinct as rendered, Some(x) only for x not rendered as null, struct fields as declared), "
-        "finite floats, outside the known classes K1/K2/K3",
+        "finite floats, outside the known class K1 (first key = the private number token)",
         "a JSON object with a repeated key deserialized into a map type is not modelled (later entry would overwrite); to_value never produces one",
     ],
 }
@@ -889,25 +890,26 @@ _m("C19", "Proved for EVERY document of the domain (arrays and objects nested to
 
 _m("C16", "Proved for EVERY type environment, type descriptor and datum of the serde data model (bool, i8..u64, f32, f64, char, string, "
           "unit, unit/newtype/tuple/plain structs, option, seq, tuple, maps keyed by strings/integers/chars/unit variants, the four "
-          "enum variant kinds; recursive types through nominal definitions), by nested induction on the datum: (C16_roundtrip) if the "
-          "datum is well typed, its floats finite and it is outside three recorded classes, to_value succeeds and from_value of the "
-          "result returns the datum with -0.0 read back as +0.0 and nothing else changed, for all sufficiently large fuel; "
-          "(C16_nonfinite) non-finite f32/f64 serialize to null; (C16_shape) for data without f32 leaves the value has the same JSON "
-          "shape as the model of serde_json::to_value: structure, strings, booleans exact, object members up to order, numbers by "
-          "value (for f32 leaves json-syntax prints the shortest f32 digits while serde_json widens to f64: equality at binary32 "
-          "precision is checked by the run only -- the partial part); (C16_via_json) converting the serde_json rendering into a Value "
-          "and deserializing it returns the datum exactly, sign of zero included, maps in key order, for every well-typed finite "
-          "datum without a field-less tuple variant. Three genuine findings with witnesses proved in Coq: C16_K1_refuted (a map whose "
-          "first key is `$serde_json::private::Number` becomes a number or an error), C16_K2_refuted (a tuple variant without fields "
-          "`V()` serializes to {\"V\":[]} which from_value rejects), C16_K3_refuted (the f32 7.038531e-26 = 0x15ae43fd comes back as "
-          "0x15ae43fe: its shortest spelling read as a double is an exact binary32 midpoint -- the only finite f32 magnitude with "
-          "this defect, established by running all 4,278,190,080 finite f32 through the implementation). The call protocol of the "
-          "std / derive-generated Deserialize impls, serde_json::to_value's shape, Value::from_serde_json and the float formatting / "
-          "parsing dependencies are MODELLED CONTRACTS (transcriptions / section variables with explicit premises) validated by the "
-          "run: the run feeds the model the spellings the dependencies actually printed and checks every premise on them (hyp=1), "
-          "and also hands from_value 20k ill-typed edits of serialized values.",
-   "No axioms (Flocq is used for executable definitions only). Floats are bit patterns; the float dependencies enter the theorems as "
-   "explicit premises (reading a spelling back returns the float; serde_json floats are non-integer-spelled; `f32 as f64 as f32` is the identity), "
+          "enum variant kinds incl. field-less tuple variants; recursive types through nominal definitions), by nested induction on the "
+          "datum: (C16_roundtrip) if the datum is well typed, its floats finite and it is outside one recorded class, to_value "
+          "succeeds and from_value of the result returns the datum with -0.0 read back as +0.0 and nothing else changed, for all "
+          "sufficiently large fuel; (C16_nonfinite) non-finite f32/f64 serialize to null; (C16_shape) for data without f32 leaves "
+          "the value has the same JSON shape as the model of serde_json::to_value: structure, strings, booleans exact, object "
+          "members up to order, numbers by value (for f32 leaves json-syntax prints the shortest f32 digits while serde_json widens "
+          "to f64: equality at binary32 precision is checked by the run only -- the partial part); (C16_via_json) converting the "
+          "serde_json rendering into a Value and deserializing it returns the datum exactly, sign of zero included, maps in key "
+          "order, for EVERY well-typed finite datum. Number spellings are read as visit_number / deserialize_f32 do: u64, else i64, "
+          "else the correctly rounded f64 (f32) of the spelling -- no parsing dependency is left in the statements. One genuine "
+          "finding remains, with a witness proved in Coq: C16_K1_refuted (a map whose first key is `$serde_json::private::Number` "
+          "becomes a number or an error; inherent to the arbitrary-precision hand-shake). Two earlier findings are repaired in "
+          "/repo (fix: F4 empty tuple variant, F5 f32 double rounding) and are now examples inside the theorems' domain "
+          "(C16_empty_tuple_variant_example; C16_f32_midpoint_example: 7.038531e-26 reads as 0x15ae43fd directly, 0x15ae43fe through "
+          "f64). The call protocol of the std / derive-generated Deserialize impls, serde_json::to_value's shape, "
+          "Value::from_serde_json and the float PRINTERS are MODELLED CONTRACTS (transcriptions / section variables with explicit "
+          "premises) validated by the run: the run feeds the model the spellings the printers actually produced and checks every "
+          "premise on them (hyp=1), and also hands from_value 20k ill-typed edits of serialized values.",
+   "No axioms (Flocq is used for executable definitions only). Floats are bit patterns; the printers enter the theorems as explicit "
+   "premises (the spelling of a finite float reads back, correctly rounded, as that float; serde_json floats are non-integer-spelled), "
    "each re-checked by the run on every recorded spelling and on samples inside Coq.",
    "Coq proof (nested induction on the datum, generalised over type and fuel; sorted-insertion lemmas for the serde_json side) + "
    "correspondence on 68 root types with a recording serializer, recorded float spellings and ill-typed inputs")
